@@ -28,25 +28,27 @@ type EP struct {
 	PSK     string   `json:"psk,omitempty"`  // hex-free ascii key, "" none
 	PSKHint string   `json:"hint,omitempty"`
 	// ClientAuth (server): 0 none, 1 request, 2 require-any, 3 verify-if-given, 4 require+verify
-	ClientAuth   int      `json:"cauth,omitempty"`
-	ClientCAs    bool     `json:"ccas,omitempty"` // server: set ClientCAs to CA1
-	SigSchemes   []uint16 `json:"sigs,omitempty"`
-	CID          int      `json:"cid,omitempty"` // 0 absent, -1 send-only (nil), n>0 length n ; 1000 = zero length
-	SRTP         []uint16 `json:"srtp,omitempty"`
-	MKI          []byte   `json:"mki,omitempty"`
-	ALPN         []string `json:"alpn,omitempty"`
-	MTU          int      `json:"mtu,omitempty"`
-	SkipHelloVfy bool     `json:"skiphv,omitempty"` // server: InsecureSkipVerifyHello
-	Store        string   `json:"store,omitempty"`  // name of a session store in the Env
-	Window       int      `json:"win,omitempty"`
-	IntervalMs   int      `json:"ivl,omitempty"`
-	IntervalUs   int      `json:"ivlus,omitempty"` // microseconds added to IntervalMs
-	NoBackoff    bool     `json:"nobackoff,omitempty"`
-	Padding      int      `json:"pad,omitempty"`
-	ServerName   string   `json:"sni,omitempty"`
-	NoVerify     bool     `json:"noverify,omitempty"` // InsecureSkipVerify
-	RootCA       int      `json:"root,omitempty"`     // 0 none, 1 CA1, 2 CA2
-	KeyLog       bool     `json:"-"`
+	ClientAuth int      `json:"cauth,omitempty"`
+	ClientCAs  bool     `json:"ccas,omitempty"` // server: set ClientCAs to CA1
+	SigSchemes []uint16 `json:"sigs,omitempty"`
+	// CertSigSchemes: WithCertificateSignatureSchemes (signature schemes acceptable in the peer's chain)
+	CertSigSchemes []uint16 `json:"certsigs,omitempty"`
+	CID            int      `json:"cid,omitempty"` // 0 absent, -1 send-only (nil), n>0 length n ; 1000 = zero length
+	SRTP           []uint16 `json:"srtp,omitempty"`
+	MKI            []byte   `json:"mki,omitempty"`
+	ALPN           []string `json:"alpn,omitempty"`
+	MTU            int      `json:"mtu,omitempty"`
+	SkipHelloVfy   bool     `json:"skiphv,omitempty"` // server: InsecureSkipVerifyHello
+	Store          string   `json:"store,omitempty"`  // name of a session store in the Env
+	Window         int      `json:"win,omitempty"`
+	IntervalMs     int      `json:"ivl,omitempty"`
+	IntervalUs     int      `json:"ivlus,omitempty"` // microseconds added to IntervalMs
+	NoBackoff      bool     `json:"nobackoff,omitempty"`
+	Padding        int      `json:"pad,omitempty"`
+	ServerName     string   `json:"sni,omitempty"`
+	NoVerify       bool     `json:"noverify,omitempty"` // InsecureSkipVerify
+	RootCA         int      `json:"root,omitempty"`     // 0 none, 1 CA1, 2 CA2
+	KeyLog         bool     `json:"-"`
 	// CertsBefore: certificate fixtures configured in front of Cert (a server with several certificates,
 	// the one for the requested name is picked)
 	CertsBefore []string `json:"certsbefore,omitempty"`
@@ -386,6 +388,13 @@ func (ep *EP) shared(env *Env, role string) ([]dtls.Option, error) {
 			ss[i] = tls.SignatureScheme(s)
 		}
 		o = append(o, dtls.WithSignatureSchemes(ss...))
+	}
+	if len(ep.CertSigSchemes) > 0 {
+		ss := make([]tls.SignatureScheme, len(ep.CertSigSchemes))
+		for i, s := range ep.CertSigSchemes {
+			ss[i] = tls.SignatureScheme(s)
+		}
+		o = append(o, dtls.WithCertificateSignatureSchemes(ss...))
 	}
 	if ep.CID != 0 {
 		o = append(o, dtls.WithConnectionIDGenerator(env.cidGen(role, ep.CID)))
